@@ -12,6 +12,7 @@ pub mod walk;
 pub mod hostile;
 pub mod absprop;
 pub mod differ;
+pub mod conc;
 
 pub struct Prop {
     pub id: &'static str,
@@ -40,6 +41,7 @@ pub fn registry() -> Vec<Prop> {
     v.extend(hostile::props());
     v.extend(absprop::props());
     v.extend(differ::props());
+    v.extend(conc::props());
     v
 }
 
